@@ -1952,7 +1952,7 @@ class EntityInst(Instance):
         for ref in actual._ref_spec:
             if isinstance(ref, Offset):
                 if isinstance(obj_type, type) and issubclass(obj_type, Array):
-                    obj_type = obj_type.elemtype()
+                    obj_type = obj_type._elemtype_
                 else:
                     return None
             elif not isinstance(ref, Slice):
